@@ -52,7 +52,7 @@ package internal
 //@   requires contents != nil && writer != nil && wfItems(contents.Items)
 //@   modifies wrOut, bufContent, cmpDst, cmpBuf, cmpBase, cmpBaseB, rawErr
 //@   assume_ensures rawErr[0] == result
-//@   ensures @others forall w io.Writer :: w != writer ==> wrOut[w] == old(wrOut[w])
+//@   ensures @others forall w io.Writer :: w != writer && !fresh(w) ==> wrOut[w] == old(wrOut[w])
 //@   ensures @wire result == nil ==> streq(wrOut[writer], old(wrOut[writer]) + old(streamWire(contents.Items, len(contents.Items))))
 //@   ensures @flags result == nil ==> forall k int :: 0 <= k && k < len(contents.Items) ==> contents.Items[k].Flags <= 255
 //@   assert_at "_, err := writer.Write(prefix[:])"#1: streq(bytes(prefix[:]), prefixStr(item.Flags, *item.Length))
@@ -64,4 +64,4 @@ package internal
 //@   assert_at "if err != nil {"#2: err == nil ==> wrOut[writer] == atpre(wrOut[writer]) + atpre(streamWire(contents.Items, i)) + (prefixStr(item.Flags, len(msgWire(item.Payload))) + msgWire(item.Payload))
 //@   loop 0: invariant streq(wrOut[writer], atpre(wrOut[writer]) + atpre(streamWire(contents.Items, rangeindex + 1)))
 //@           invariant forall k int :: 0 <= k && k <= rangeindex ==> contents.Items[k].Flags <= 255
-//@           invariant forall w io.Writer :: w != writer ==> wrOut[w] == atpre(wrOut[w])
+//@           invariant forall w io.Writer :: w != writer && !fresh(w) ==> wrOut[w] == atpre(wrOut[w])
